@@ -44,7 +44,8 @@ META = {
 }
 RULE = (
     "cases = (method, source kind+timeline, optional-parameter subset, argument values, binding style), all enumerated; "
-    "quick varies one parameter at a time over its catalogue, thorough takes the full product and more timelines; "
+    "argument values = full product over the catalogue; quick: 4 fixed timelines, positional+keyword; thorough: 9 fixed timelines + every "
+    "timeline of <=3 elements over 2 values ending in completion/error as cold and as hot source, positional+keyword+mixed; "
     "non-trivial = the fluent form built, subscribed the source and delivered >=1 notification (or produced a settled "
     "non-observable result); distinct = the full case key; per-parameter sensitivity (some pair of bindings differing only "
     "in that parameter gives different observations) is measured and reported"
@@ -572,13 +573,7 @@ class Plan:
                 if restricted(self.name, given):
                     continue
                 sizes = [len(catalogue(self.name, g)) for g in given]
-                if tier == "quick":
-                    choices = [tuple(0 for _ in given)]
-                    for i, n in enumerate(sizes):
-                        for k in range(1, n):
-                            choices.append(tuple(k if j == i else 0 for j in range(len(given))))
-                else:
-                    choices = list(itertools.product(*[range(n) for n in sizes]))
+                choices = list(itertools.product(*[range(n) for n in sizes]))
                 for ch in choices:
                     seen_shapes = set()
                     for style in styles:
@@ -672,7 +667,7 @@ def source_specs(kind, tier, abc_):
             ("cold-empty", False, [(10, "C", None)]),
             ("hot-many", True, [(150, "N", C), (205, "N", A), (215, "N", A), (230, "N", B), (260, "N", C), (300, "C", None)]),
         ]
-        if thorough:
+        if True:
             specs += [
                 ("cold-sync", False, [(None, "N", A), (None, "N", B), (None, "N", C), (None, "C", None)]),
                 ("cold-never", False, [(10, "N", A), (20, "N", B)]),
@@ -680,6 +675,11 @@ def source_specs(kind, tier, abc_):
                 ("cold-one", False, [(10, "N", C), (20, "C", None)]),
                 ("hot-error", True, [(205, "N", B), (215, "N", C), (240, "E", "src")]),
             ]
+        if thorough:
+            # every timeline of <=3 elements over {A, B} ending in completion or error, cold and hot
+            for i, tl in enumerate(vt.timelines(3, (A, B))):
+                specs.append((f"cold-tl{i}", False, tl))
+                specs.append((f"hot-tl{i}", True, vt.shift(tl, SUB1 - 5)))
         return [(lab, hot, [(t, k, (conv(v) if k == "N" else v)) for (t, k, v) in tl]) for (lab, hot, tl) in specs]
     if kind == "note":
         specs = [
@@ -947,7 +947,7 @@ def run(ctx: core.Ctx):
         "methods": len(ps),
         "timelines_per_kind": {k: len(source_specs(k, ctx.tier, abc_for(ctx.seed))) for k in ("int", "note", "obs")},
         "optional_subsets": "all",
-        "values": "one-at-a-time over the catalogue" if ctx.tier == "quick" else "full product over the catalogue",
+        "values": "full product over the catalogue",
         "styles": ["pos", "kw"] if ctx.tier == "quick" else ["pos", "kw", "mixed"],
         "subscribers": 2,
         "horizon": HORIZON,
